@@ -9,6 +9,8 @@ import (
 
 	"github.com/prometheus/prometheus/model/labels"
 	"github.com/prometheus/prometheus/storage"
+
+	"github.com/thanos-community/promql-engine/verifhook"
 )
 
 type SeriesSelector interface {
@@ -59,6 +61,7 @@ func (o *seriesSelector) GetSeries(ctx context.Context, shard int, numShards int
 }
 
 func (o *seriesSelector) loadSeries(ctx context.Context) error {
+	defer verifhook.NoPark()()
 	querier, err := o.storage.Querier(ctx, o.mint, o.maxt)
 	if err != nil {
 		return err
